@@ -71,6 +71,153 @@ def gen_archive(rnd):
     return ms + b"\0"
 
 
+# ---------------------------------------------------------------- directed families (audit round 4)
+#
+# The random archives above give every member its own random name, so the messages that need two members to agree
+# on a name (overwrite prompt, "Skipped...", "Parent path ... is not a directory!", "Failed to read file type of",
+# "Failed to create parent directory", "Failed to stat") never carry archive bytes, the dry runs of t and p are not
+# among the modes, no printed string is longer than 255 bytes, and -- since TAB, CR and LF are the tool's own characters
+# too -- a sanitiser that lets an archive's TAB, CR or LF through passes the byte scan.
+
+NAME_BAD = b"/\\|\xff"
+
+
+def hname(rnd, n):
+    """a hostile name that can be a file name and a path component alike (no separator, no NUL, not '.' / '..')"""
+    while True:
+        b = bytes(c for c in hostile(rnd, n + 4) if c not in NAME_BAD)[:n]
+        if b and b not in (b".", b"..") and any(c not in ALLOWED for c in b):
+            return b
+
+
+def _hdr(method, exts, data=b"", lv=2, name=None, os_=ord('U'), area=None):
+    f = {"level": lv, "method": method, "clen": len(data), "length": len(data), "crc": lb.crc16(data), "attr": 0x20, "os": os_,
+         "time": 0x5a000000 if lv >= 2 else 0x21, "exts": list(exts)}
+    if lv in (0, 1):
+        f["name"] = name or b""
+    if area is not None:
+        f["area"] = area
+    return lb.build_header(f) + data
+
+
+P_DIR, P_DIR_RO, P_LINK, P_FILE = ((0x50, struct.pack("<H", m)) for m in (0o40755, 0o40555, 0o120777, 0o100644))
+
+
+def directed_cases(rnd, quick):
+    """[(archive, mode, stdin, family)]: archives whose members agree on a hostile name"""
+    res = []
+    for _ in range(6 if quick else 120):
+        n = hname(rnd, rnd.choice([1, 3, 9, 30]))
+        s = hname(rnd, rnd.choice([1, 5]))
+        t = hostile(rnd, rnd.choice([1, 6]))
+        data = b"A" * rnd.choice([0, 3, 40])
+        lv = rnd.choice([0, 1, 2, 2, 3])
+        # the same file twice: the second one meets the first -> overwrite prompt on stderr; answer s -> "Skipped..."
+        if lv >= 2:
+            one = _hdr(b"-lh0-", [(1, n)], data, lv)
+            sub = _hdr(b"-lh0-", [(1, n), (2, s + b"\xff")], data, lv)
+        else:
+            one = _hdr(b"-lh0-", [], data, lv, name=n[:60])
+            sub = _hdr(b"-lh0-", [], data, lv, name=s + b"\\" + n[:60])
+        for a, m, si in ((one + one, "x", b"y\n"), (one + one, "e", b"n\n"), (one + one + one, "x", b"s\n"), (one + one + one, "e", b"A\n"),
+                         (sub + sub + sub, "x", b"S\n"), (sub + sub, "xi", b"n\ny\n"), (one + one, "xw=o", b"\n"),
+                         (one + one, "xv", b"garbage\ny\n"), (sub + one + sub, "ei", b"s\n")):
+            res.append((a + b"\0", m, si, "dup"))
+        # a file, then entries that need its name to be a directory
+        f0 = _hdr(b"-lh0-", [(1, n)], data)
+        under = [_hdr(b"-lhd-", [(2, n + b"\xff" + s + b"\xff"), P_DIR]),                       # Parent path ... is not a directory!
+                 _hdr(b"-lhd-", [(2, n + b"\xff" + s + b"\xff" + s + b"\xff")]),
+                 _hdr(b"-lhd-", [(2, n + b"\xff"), (1, s + b"|" + t), P_LINK]),
+                 _hdr(b"-lh0-", [(2, n + b"\xff"), (1, s)], data)]                                # Failed to read file type of
+        for u in under:
+            for m in (("x", "xf", "e", "xq1") if not quick else (rnd.choice(["x", "xf", "e", "xq1"]),)):
+                res.append((f0 + u + b"\0", m, b"y\ny\n", "notdir"))
+        # a read-only directory that is complete, then a member that needs a new directory inside it
+        ro = _hdr(b"-lhd-", [(2, n + b"\xff"), P_DIR_RO]) + _hdr(b"-lh0-", [(1, b"z")], b"A") \
+            + rnd.choice([_hdr(b"-lh0-", [(2, n + b"\xff" + s + b"\xff"), (1, b"f")], data),
+                          _hdr(b"-lhd-", [(2, n + b"\xff" + s + b"\xff" + s + b"\xff"), P_DIR]),
+                          _hdr(b"-lhd-", [(2, n + b"\xff" + s + b"\xff"), (1, b"l|" + t), P_LINK])])
+        res.append((ro + b"\0", rnd.choice(["x", "xf", "e"]), b"y\n", "rodir"))
+        # a component longer than NAME_MAX: Failed to stat / Failed to read file type of
+        long_ = hname(rnd, rnd.choice([256, 300]))
+        for u in (_hdr(b"-lhd-", [(2, long_ + b"\xff" + s + b"\xff"), P_DIR]), _hdr(b"-lhd-", [(2, long_ + b"\xff"), (1, s + b"|" + t), P_LINK]),
+                  _hdr(b"-lh0-", [(2, long_ + b"\xff"), (1, s)], data), _hdr(b"-lh0-", [(1, long_)], data)):
+            res.append((u + b"\0", rnd.choice(["x", "xf", "e", "xq1", "x", "e", "xn", "t", "l", "vv"]), b"y\n", "toolong"))
+    # lines longer than 255 bytes (components short enough to exist)
+    for _ in range(8 if quick else 100):
+        comps = [hname(rnd, rnd.choice([60, 100, 200])) for _ in range(rnd.choice([1, 2, 3]))]
+        nm = hname(rnd, rnd.choice([100, 200, 250]))
+        tg = hostile(rnd, rnd.choice([100, 300]))
+        path = b"".join(c + b"\xff" for c in comps)
+        ms = [_hdr(b"-lhd-", [(2, path), P_DIR]), _hdr(b"-lh0-", [(2, path), (1, nm)], b"AAA"),
+              _hdr(b"-lhd-", [(2, path), (1, nm[:50] + b"|" + tg), P_LINK]), _hdr(hostile(rnd, 5), [(1, nm)], b"")]
+        a = b"".join(ms[:rnd.choice([2, 3, 4])]) + b"\0"
+        for m in (rnd.sample(MODES + ["tn", "pn", "en"], 3) if quick else MODES + ["tn", "pn", "en"]):
+            res.append((a, m, b"y\n" * 20, "longline"))
+    return res
+
+
+DRY_MODES = ["tn", "pn", "en", "tnq1", "xnq2", "eni", "xnw=o", "tnv"]
+
+CTL = {9: 1, 10: 2, 13: 3}
+CTL_TABLE = bytes(CTL.get(i, i) for i in range(256))
+CTL_ALPHA = [9, 9, 9, 10, 10, 13, 13, 0x1b, 0x7f, 0x80, 0x41, 0x62, 0x20, 0x2e, 0xe9]      # never 1, 2, 3
+
+
+def ctl_bytes(rnd, n):
+    return bytes(rnd.choice(CTL_ALPHA) for _ in range(n))
+
+
+def ctl_pair(rnd):
+    """(A, A'): the same archive description serialised twice; in A' every TAB / LF / CR of the names, path
+    components, link targets, method fields and user / group strings is the control byte 1 / 2 / 3 instead (bytes
+    that occur nowhere else in these fields, so the replacement is one-to-one: no two names fall together).  All of them
+    are control characters, all must come out as '?': the two outputs must be the same bytes."""
+    spec = []
+    n = rnd.randrange(1, 5)
+    for i in range(n):
+        kind = rnd.choice(["file", "file", "dir", "symlink"])
+        spec.append({"lv": rnd.randrange(4), "kind": kind,
+                     "method": b"-lh0-" if kind == "file" and (i == 0 or rnd.random() < 0.6) else b"-lhd-" if kind != "file" else ctl_bytes(rnd, 5),
+                     "name": ctl_bytes(rnd, rnd.choice([1, 3, 12])), "comps": [ctl_bytes(rnd, rnd.choice([1, 4])) for _ in range(rnd.randrange(0, 3))],
+                     "target": ctl_bytes(rnd, rnd.choice([1, 5, 20])), "ug": rnd.random() < 0.4, "user": ctl_bytes(rnd, 6), "group": ctl_bytes(rnd, 6),
+                     "data": b"A" * rnd.choice([0, 3, 40]), "os": rnd.choice([ord('U'), ord('U'), 0, ord('M'), ord('m')])})
+
+    def build(tr):
+        out = b""
+        for m in spec:
+            x = (lambda b: b.translate(CTL_TABLE)) if tr else (lambda b: b)
+            lv, kind = m["lv"], m["kind"]
+            data = m["data"] if kind == "file" else b""
+            name, comps, target = x(m["name"]), [x(c) for c in m["comps"]], x(m["target"])
+            if kind == "dir" and not comps:
+                comps = [x(b"d\t")]
+            exts, inname, area = [], None, None
+            if lv in (0, 1):
+                inname = b"".join(c + b"\\" for c in comps) + (b"" if kind == "dir" else name)
+                if kind == "symlink":
+                    inname += b"|" + target
+                if lv == 1:
+                    if kind == "symlink":
+                        exts.append(P_LINK)
+                    if m["ug"]:
+                        exts += [(0x52, x(m["group"])), (0x53, x(m["user"]))]
+                elif kind == "symlink":
+                    area = bytes([ord('U'), 0]) + struct.pack("<I", 1) + struct.pack("<HHH", 0o120777, 1, 2)
+            else:
+                if comps:
+                    exts.append((2, b"".join(c + b"\xff" for c in comps)))
+                if kind == "symlink":
+                    exts += [P_LINK, (1, name + b"|" + target)]
+                elif kind == "file":
+                    exts.append((1, name))
+                if m["ug"]:
+                    exts += [(0x52, x(m["group"])), (0x53, x(m["user"])), (0x51, struct.pack("<HH", 1, 2))]
+            out += _hdr(x(m["method"]), exts, data, lv, name=inname, os_=m["os"], area=area)
+        return out + b"\0"
+    return build(False), build(True)
+
+
 def run(ctx):
     rnd = random.Random(ctx.seed * 433494437 + 18)
     cb = CBuild(PID)
@@ -126,12 +273,86 @@ def run(ctx):
                                  "byte": b, "offset": k, "context": data[max(0, k - 40):k + 20].decode("latin1"),
                                  "archive_hex": a.hex(), "sig": "raw:%s:%s" % (mode[0], _column(data, k))})
                     break
-        cov = {"evaluations": len(jobs), "distinct_nontrivial": nontriv,
+        # ---- directed families (names shared between members, dry runs of t / p, long lines, TAB / CR / LF)
+        extra = [(a, m, si, fam_, None) for a, m, si, fam_ in directed_cases(rnd, ctx.quick)]
+        for i in range(40 if ctx.quick else 1200):
+            a = gen_archive(rnd)
+            extra.append((a, rnd.choice(DRY_MODES), b"y\n" * 20, "dry", None))
+        for i in range(40 if ctx.quick else 1200):
+            a, a2 = ctl_pair(rnd)
+            for mode in rnd.sample(MODES + ["tn"], 3 if ctx.quick else 8):
+                extra.append((a, mode, b"y\n" * 20, "ctl", a2))
+
+        def run_one(k, a, mode, si):
+            d = os.path.join(scratch, "x%d" % k)
+            os.makedirs(d, exist_ok=True)
+            open(os.path.join(d, "arc.lzh"), "wb").write(a)
+            os.utime(os.path.join(d, "arc.lzh"), (1400000000, 1400000000))     # (the list footer shows the archive's own mtime)
+            if os.geteuid() == 0:
+                os.chown(d, 65534, 65534)
+            r = common.run_lha(lha, [mode, "arc.lzh"], cwd=d, as_nobody=True, stdin=si, now=1500000000)
+            if os.geteuid() == 0:
+                common.sh(["chmod", "-R", "u+rwx", d])
+            shutil.rmtree(d, ignore_errors=True)
+            return r
+
+        def two(job):
+            k, (a, mode, si, fam_, twin) = job
+            return run_one(2 * k, a, mode, si), (run_one(2 * k + 1, twin, mode, si) if twin is not None else None)
+        with ThreadPoolExecutor(max_workers=common.NCPU) as ex:
+            xres = list(ex.map(two, enumerate(extra)))
+        seen_msg = collections.Counter()
+        for (a, mode, si, fam_, twin), ((rc, out, err), tw) in zip(extra, xres):
+            dist["%s:%s" % (fam_, mode)] += 1
+            ab = common.abnormal(rc, err)
+            if ab:
+                viol.append({"property": PID, "kind": "tool-abnormal-termination", "mode": mode, "archive_hex": a.hex(), "stdin_hex": si.hex(),
+                             "observed": ab, "sig": "crash"})
+                continue
+            for key in (b"OverWrite ?", b"Skipped...", b"is not a directory!", b"Failed to read file type", b"Failed to create parent",
+                        b"Failed to stat", b"VERIFY ", b"EXTRACT "):
+                if key in out or key in err:
+                    seen_msg[key.decode()] += 1
+            if max((len(l) for l in (out + err).split(b"\n")), default=0) > 300:
+                seen_msg["line > 300 bytes"] += 1
+            if len(out) + len(err) > 80:
+                nontriv += 1
+            hit = False
+            for stream, data in (("stdout", out), ("stderr", err)):
+                bad = [(k, b) for k, b in enumerate(data) if b not in ALLOWED]
+                if bad:
+                    k, b = bad[0]
+                    viol.append({"property": PID, "kind": "unprintable-byte-in-output", "mode": mode, "stream": stream, "family": fam_,
+                                 "byte": b, "offset": k, "context": data[max(0, k - 40):k + 20].decode("latin1"),
+                                 "archive_hex": a.hex(), "stdin_hex": si.hex(), "sig": "raw:%s:%s" % (mode[0], _column(data, k))})
+                    hit = True
+                    break
+            if tw is not None and not hit and not common.abnormal(tw[0], tw[2]):
+                seen_msg["twin runs"] += 1
+                for stream, d1, d2 in (("stdout", out, tw[1]), ("stderr", err, tw[2])):
+                    if d1 != d2:
+                        k = next((j for j, (x, y) in enumerate(zip(d1, d2)) if x != y), min(len(d1), len(d2)))
+                        viol.append({"property": PID, "kind": "archive-control-character-in-output", "mode": mode, "stream": stream,
+                                     "what": "the archive's TAB / LF / CR bytes do not come out as '?': the output differs from that of the "
+                                             "same archive with the control bytes 1 / 2 / 3 in their place",
+                                     "offset": k, "context": d1[max(0, k - 40):k + 20].decode("latin1"),
+                                     "twin_context": d2[max(0, k - 40):k + 20].decode("latin1"),
+                                     "archive_hex": a.hex(), "twin_hex": twin.hex(), "stdin_hex": si.hex(), "sig": "ctl:%s" % mode[0]})
+                        break
+        dist.update({"message: " + k: v for k, v in seen_msg.items()})
+        viol.sort(key=lambda v: (v.get("kind") == "tool-abnormal-termination", len(v.get("archive_hex", ""))))
+        cov = {"evaluations": len(jobs) + len(extra) + sum(1 for e in extra if e[4] is not None), "distinct_nontrivial": nontriv,
                "rule": "archives of 1-4 members whose names, path components, link targets, user/group strings and method fields "
                        "(first member: only the byte the signature test leaves free; later members: all five bytes) hold bytes "
                        "0x01-0xFF incl. ESC, BEL, CSI, DEL, CR, LF, BS; levels 0-3; files, directories, symlinks; member data is "
                        "printable 'A's; every output byte of the real tool in the modes %s must be in {0x20..0x7E, LF, CR, TAB}. "
-                       "non-trivial = run that printed more than 80 bytes" % " ".join(MODES),
+                       "non-trivial = run that printed more than 80 bytes.  Directed families: members that agree on a hostile name (the "
+                       "same file twice with prompt answers y n s a; a file and then a directory / link / file below its name; a "
+                       "read-only directory and a later member that needs a new directory in it; components longer than NAME_MAX) so "
+                       "that the prompt, 'Skipped...', 'Parent path ... is not a directory!', 'Failed to read file type of', 'Failed to "
+                       "create parent directory' and 'Failed to stat' carry archive bytes; printed strings longer than 255 bytes; the dry "
+                       "runs tn pn en; pairs of archives that differ only in TAB/LF/CR versus the control bytes 1/2/3 inside the header "
+                       "strings must give the same output (an archive's own TAB, LF, CR must become '?' too)" % " ".join(MODES),
                "distribution": dict(dist), "samples": [jobs[0][1].hex()[:200], jobs[1][2]]}
         return {"violations": viol[:10], "mismatches": [], "coverage": cov,
                 "search_note": "direct oracle: byte scan of the tool's stdout and stderr"}
@@ -154,11 +375,27 @@ def replay(payload):
     try:
         lha = common.build_lha(cb)
         open(os.path.join(d, "arc.lzh"), "wb").write(bytes.fromhex(payload["archive_hex"]))
-        rc, out, err = common.run_lha(lha, [payload["mode"], "arc.lzh"], cwd=d, stdin=b"y\n" * 20, now=1500000000)
+        os.utime(os.path.join(d, "arc.lzh"), (1400000000, 1400000000))
+        si = bytes.fromhex(payload["stdin_hex"]) if "stdin_hex" in payload else b"y\n" * 20
+        if os.geteuid() == 0:
+            os.chown(d, 65534, 65534)
+        rc, out, err = common.run_lha(lha, [payload["mode"], "arc.lzh"], cwd=d, as_nobody=True, stdin=si, now=1500000000)
         bad = [b for b in out + err if b not in ALLOWED]
-        print(out[:600]); print("unprintable bytes:", bad[:10])
+        print(out[:600]); print(err[:300]); print("unprintable bytes:", bad[:10])
+        if payload.get("twin_hex"):
+            d2 = os.path.join(d, "twin")
+            os.makedirs(d2)
+            open(os.path.join(d2, "arc.lzh"), "wb").write(bytes.fromhex(payload["twin_hex"]))
+            os.utime(os.path.join(d2, "arc.lzh"), (1400000000, 1400000000))
+            if os.geteuid() == 0:
+                os.chown(d2, 65534, 65534)
+            rc2, out2, err2 = common.run_lha(lha, [payload["mode"], "arc.lzh"], cwd=d2, as_nobody=True, stdin=si, now=1500000000)
+            print("twin:", out2[:600], err2[:300])
+            bad = bad or ([1] if (out, err) != (out2, err2) else [])
         print("REPRODUCED" if bad else "not reproduced")
         return 1 if bad else 0
     finally:
+        if os.geteuid() == 0:
+            common.sh(["chmod", "-R", "u+rwx", d])
         shutil.rmtree(d, ignore_errors=True)
         cb.close()
